@@ -3,11 +3,13 @@
    sequences of operations, not on how operations of different sections interleave.  This is what makes the Builder's per-section
    grouping (BuilderGrouping.replay_is_grouping) invisible in the assembled result.
 
-   Fragment: raw bytes, gaps (align), label references of every displacement kind of the two backends, binds, section switches; labels and
-   sections are created first; every label is bound at most once (a Builder rejects a second bind at record time).  Relocation entries
-   (embed_label / embed_label_delta: OAbsRef / ODelta) are outside the fragment - they are compared "by effect" by the check's oracle. *)
-From Coq Require Import ZArith List Bool Lia Arith.
-From Verif Require Import Codec.OffsetModel Labels.LabelsModel Labels.LabelsProofs Labels.LabelsExact.
+   Fragment: raw bytes, gaps (align), label references of every displacement kind of the two backends, binds, absolute references
+   (embed_label / x86-32 [label]: OAbsRef with its RelToAbs relocation entry), section switches; labels and sections are created first;
+   every label is bound at most once (a Builder rejects a second bind at record time).  Also order independent: the unresolved-fixup count
+   (references and relocation-linked fixups) and the multiset of relocation entries with their final payload / target section.
+   Label deltas (embed_label_delta: ODelta) are outside the fragment - compared "by effect" by the check's oracle. *)
+From Coq Require Import ZArith List Bool Lia Arith Permutation.
+From Verif Require Import Codec.OffsetModel Labels.LabelsModel Labels.LabelsProofs Labels.LabelsExact Labels.LabelsAbs.
 Import ListNotations.
 Local Open Scope Z_scope.
 
@@ -15,13 +17,15 @@ Local Open Scope Z_scope.
 Inductive sop :=
 | SRaw (bs : list Z) | SGap (n : Z)
 | SRef (k : refkind) (rel : Z) (l : nat) (pre : list Z) (w0 : Z) (post : list Z)
-| SBind (l : nat).
+| SBind (l : nat)
+| SAbs (l : nat) (size addend : Z) (pre post : list Z).     (* embed_label / x86-32 [label]: bytes + a RelToAbs relocation entry *)
 
 Definition op_of (o : sop) : op :=
   match o with
   | SRaw bs => ORaw bs | SGap n => OGap n
   | SRef k rel l pre w0 post => ORef k rel l pre w0 post
   | SBind l => OBind l
+  | SAbs l size addend pre post => OAbsRef l size addend pre post
   end.
 
 Definition top := (nat * sop)%type.                       (* (section, operation) *)
@@ -38,14 +42,21 @@ Definition ghost_of (r : refrec) : ghost :=
 
 Inductive gitem := GRaw (bs : list Z) | GGap (n : Z) | GRef (g : ghost).
 
-Record lst := { l_len : Z; l_items : list gitem; l_binds : list (nat * Z) }.
-Definition lst0 : lst := {| l_len := 0; l_items := []; l_binds := [] |}.
+(* the immutable part of a relocation entry *)
+Record rghost := { rg_sec : nat; rg_off : Z; rg_lead : Z; rg_size : Z; rg_trail : Z; rg_label : nat; rg_addend : Z }.
+Definition rghost_of (re : reloc) : rghost :=
+  {| rg_sec := rl_sec re; rg_off := rl_off re; rg_lead := rl_lead re; rg_size := rl_size re; rg_trail := rl_trail re;
+     rg_label := rl_label re; rg_addend := rl_addend re |}.
+
+Record lst := { l_len : Z; l_items : list gitem; l_binds : list (nat * Z); l_rels : list rghost }.
+Definition lst0 : lst := {| l_len := 0; l_items := []; l_binds := []; l_rels := [] |}.
 
 Fixpoint assoc (l : nat) (b : list (nat * Z)) : option Z :=
   match b with [] => None | (k, v) :: t => if Nat.eqb k l then Some v else assoc l t end.
 
-Definition lemit (st : lst) (its : list gitem) (n : Z) : lst :=
-  {| l_len := l_len st + n; l_items := l_items st ++ its; l_binds := l_binds st |}.
+Definition lemitr (st : lst) (its : list gitem) (n : Z) (rs : list rghost) : lst :=
+  {| l_len := l_len st + n; l_items := l_items st ++ its; l_binds := l_binds st; l_rels := l_rels st ++ rs |}.
+Definition lemit (st : lst) (its : list gitem) (n : Z) : lst := lemitr st its n [].
 
 Definition lstep (nl k : nat) (st : lst) (o : sop) : lst :=
   match o with
@@ -65,12 +76,40 @@ Definition lstep (nl k : nat) (st : lst) (o : sop) : lst :=
       if Nat.ltb l nl then
         match assoc l (l_binds st) with
         | Some _ => st
-        | None => {| l_len := l_len st; l_items := l_items st; l_binds := (l, l_len st) :: l_binds st |}
+        | None => {| l_len := l_len st; l_items := l_items st; l_binds := (l, l_len st) :: l_binds st; l_rels := l_rels st |}
         end
       else st
+  | SAbs l size addend pre post =>
+      if negb (Nat.ltb l nl) then st else
+      if negb (size_ok size) then st else
+      lemitr st [GRaw (pre ++ zeros size ++ post)] (zlen pre + size + zlen post)
+             [{| rg_sec := k; rg_off := l_len st; rg_lead := zlen pre; rg_size := size; rg_trail := zlen post; rg_label := l; rg_addend := addend |}]
   end.
 
 Definition lfold (nl k : nat) (os : list sop) : lst := fold_left (lstep nl k) os lst0.
+
+(* CodeHolder::bind_label refuses (kInvalidDisplacement, nothing changes) when a same-section reference to the label cannot encode its
+   displacement (/repo 6b578fc; bind_precheck in C03's model).  Seen from the section: every reference item to the label must fit. *)
+Definition lprecheck (l : nat) (off : Z) (its : list gitem) : bool :=
+  forallb (fun it => match it with
+                     | GRef g => if Nat.eqb (g_label g) l
+                                 then match write_offset (fmt_of_kind (g_kind g)) (g_w0 g) (disp 0 0 off (g_site g) (g_rel g)) with Some _ => true | None => false end
+                                 else true
+                     | _ => true
+                     end) its.
+
+Definition bind_fits (st : lst) (o : sop) : bool :=
+  match o with SBind l => lprecheck l (l_len st) (l_items st) | _ => true end.
+
+(* no bind of the section's operation sequence is refused *)
+Fixpoint fits_from (nl k : nat) (st : lst) (os : list sop) : bool :=
+  match os with [] => true | o :: r => bind_fits st o && fits_from nl k (lstep nl k st o) r end.
+Definition all_fit (nl ns : nat) (t : list top) : Prop := forall k, (k < S ns)%nat -> fits_from nl k lst0 (proj k t) = true.
+
+Lemma fits_from_snoc : forall nl k os st o, fits_from nl k st (os ++ [o]) = fits_from nl k st os && bind_fits (fold_left (lstep nl k) os st) o.
+Proof.
+  induction os as [|a os IH]; intros st o; cbn [app fits_from fold_left]; [now rewrite andb_true_r|]. rewrite IH. now rewrite andb_assoc.
+Qed.
 
 (* ================================================================== the invariant tying a run of C03's machine to the per-section folds *)
 Definition gi (rs : list refrec) (it : item) : gitem :=
@@ -84,6 +123,34 @@ Definition item_ok (rs : list refrec) (it : item) : Prop := match it with IRef i
 
 Definition nsec (s : state) (k : nat) : section := nth k (secs s) empty_sec.
 
+(* all references of a program, section by section *)
+Definition grefs (its : list gitem) : list ghost := flat_map (fun it => match it with GRef g => [g] | _ => [] end) its.
+Definition allghosts (nl ns : nat) (t : list top) : list ghost :=
+  flat_map (fun k => grefs (l_items (lfold nl k (proj k t)))) (seq 0 (S ns)).
+
+Definition allrels (nl ns : nat) (t : list top) : list rghost :=
+  flat_map (fun k => l_rels (lfold nl k (proj k t))) (seq 0 (S ns)).
+Definition is_abs (re : reloc) : Prop := rl_type re = RelToAbs.
+
+Lemma grefs_app : forall a b, grefs (a ++ b) = grefs a ++ grefs b.
+Proof. intros. unfold grefs. apply flat_map_app. Qed.
+
+Lemma flat_map_seq_ext : forall {A} (f g : nat -> list A) n a, (forall j, (a <= j < a + n)%nat -> f j = g j) -> flat_map f (seq a n) = flat_map g (seq a n).
+Proof.
+  intros A f g. induction n as [|n IH]; intros a H; [reflexivity|]. cbn [seq flat_map]. rewrite (H a) by lia. f_equal. apply IH. intros j Hj. apply H. lia.
+Qed.
+
+Lemma flat_map_seq_extend : forall {A} (f g : nat -> list A) (extra : list A) k n a, (a <= k < a + n)%nat ->
+  (forall j, j <> k -> g j = f j) -> g k = f k ++ extra ->
+  Permutation (flat_map g (seq a n)) (flat_map f (seq a n) ++ extra).
+Proof.
+  intros A f g extra k. induction n as [|n IH]; intros a H HO HK; [lia|]. cbn [seq flat_map].
+  destruct (Nat.eq_dec a k) as [->|N].
+  - rewrite HK. rewrite (flat_map_seq_ext g f n (S k)) by (intros j Hj; apply HO; lia).
+    rewrite <- !app_assoc. apply Permutation_app_head. apply Permutation_app_comm.
+  - rewrite (HO a N). rewrite <- app_assoc. apply Permutation_app_head. apply IH; [lia|exact HO|exact HK].
+Qed.
+
 Record J (nl ns : nat) (t : list top) (s : state) : Prop := {
   j_secs : length (secs s) = S ns;
   j_labels : length (labels s) = nl;
@@ -93,7 +160,9 @@ Record J (nl ns : nat) (t : list top) (s : state) : Prop := {
   j_ok : forall k, (k < S ns)%nat -> Forall (item_ok (refs s)) (s_items (nsec s k));
   j_bound : forall l k off, nth_error (labels s) l = Some (Some (k, off)) <-> ((k < S ns)%nat /\ assoc l (l_binds (lfold nl k (proj k t))) = Some off);
   j_sec : forall id r, nth_error (refs s) id = Some r ->
-            (r_sec r < S ns)%nat /\ In (GRef (ghost_of r)) (l_items (lfold nl (r_sec r) (proj (r_sec r) t)))
+            (r_sec r < S ns)%nat /\ In (GRef (ghost_of r)) (l_items (lfold nl (r_sec r) (proj (r_sec r) t)));
+  j_perm : Permutation (map ghost_of (refs s)) (allghosts nl ns t);      (* references <-> reference items, one to one *)
+  j_rel : Permutation (map rghost_of (relocs s)) (allrels nl ns t) /\ Forall is_abs (relocs s)   (* relocation entries <-> SAbs operations *)
 }.
 
 (* ------------------------------------------------------------------ small facts *)
@@ -153,6 +222,20 @@ Proof.
   - apply IH. rewrite nth_error_upd_neq by exact N. exact H.
 Qed.
 
+Lemma map_upd_same : forall {A B} (f : A -> B) (l : list A) i v x, nth_error l i = Some x -> f v = f x -> map f (upd l i v) = map f l.
+Proof.
+  induction l as [|a l IH]; intros [|i] v x H E; cbn in *; try discriminate; [injection H as ->; now rewrite E|]. f_equal. eapply IH; eassumption.
+Qed.
+
+Lemma resolve_list_ghost_map : forall sel f fxs rs, map ghost_of (w_refs (resolve_list sel f fxs rs)) = map ghost_of rs.
+Proof.
+  induction fxs as [|fx t IH]; intros rs; cbn [resolve_list]; [reflexivity|].
+  destruct (sel fx) as [| |lay lo]; cbn [walk_keep w_refs]; try apply IH.
+  destruct (nth_error rs (fx_id fx)) as [r0|] eqn:E0; cbn [walk_keep w_refs]; [|apply IH].
+  destruct (write_offset _ _ _) as [w|]; cbn [walk_keep walk_done w_refs]; [|apply IH].
+  rewrite IH. eapply map_upd_same; [exact E0|reflexivity].
+Qed.
+
 (* ------------------------------------------------------------------ J is preserved by one tagged operation *)
 Lemma nsec_upd_eq : forall s (k : nat) v s2, secs s2 = upd (secs s) k v -> (k < length (secs s))%nat -> nsec s2 k = v.
 Proof. intros. unfold nsec. rewrite H. apply nth_upd_eq. exact H0. Qed.
@@ -162,10 +245,10 @@ Proof. intros. unfold nsec. rewrite H. apply nth_upd_neq. exact H0. Qed.
 
 Lemma J_nop : forall nl ns t s k o s2, J nl ns t s -> (k < S ns)%nat ->
   lstep nl k (lfold nl k (proj k t)) o = lfold nl k (proj k t) ->
-  secs s2 = secs s -> labels s2 = labels s -> refs s2 = refs s -> cur s2 = k ->
+  secs s2 = secs s -> labels s2 = labels s -> refs s2 = refs s -> cur s2 = k -> pending_rel s2 = pending_rel s -> relocs s2 = relocs s ->
   J nl ns (t ++ [(k, o)]) s2.
 Proof.
-  intros nl ns t s k o s2 [A B C D E F G H] Hk HL S1 S2 S3 S4.
+  intros nl ns t s k o s2 [A B C D E F G H PM NR] Hk HL S1 S2 S3 S4 S5 S6.
   assert (P : forall j, lfold nl j (proj j (t ++ [(k, o)])) = lfold nl j (proj j t)).
   { intros j. rewrite proj_snoc. cbn [fst snd]. destruct (Nat.eqb k j) eqn:EQ; [|now rewrite app_nil_r].
     apply Nat.eqb_eq in EQ. subst j. rewrite lfold_snoc. exact HL. }
@@ -174,16 +257,19 @@ Proof.
   - intros j Hj. rewrite P. apply E. exact Hj.
   - intros l j off. rewrite P. apply G.
   - intros id r Hr. rewrite P. eapply H. exact Hr.
+  - unfold allghosts. rewrite (flat_map_seq_ext _ (fun j => grefs (l_items (lfold nl j (proj j t))))) by (intros; now rewrite P). exact PM.
+  - rewrite S6. unfold allrels. rewrite (flat_map_seq_ext _ (fun j => l_rels (lfold nl j (proj j t)))) by (intros; now rewrite P). exact NR.
 Qed.
 
-Lemma J_emit : forall nl ns t s k o its n extra s2, J nl ns t s -> (k < S ns)%nat ->
+Lemma J_emitr : forall nl ns t s k o its n extra rextra s2, J nl ns t s -> (k < S ns)%nat ->
   (forall r, In r extra -> r_sec r = k /\ In (GRef (ghost_of r)) (map (gi (refs s ++ extra)) its)) ->
   Forall (item_ok (refs s ++ extra)) its ->
-  lstep nl k (lfold nl k (proj k t)) o = lemit (lfold nl k (proj k t)) (map (gi (refs s ++ extra)) its) n ->
+  lstep nl k (lfold nl k (proj k t)) o = lemitr (lfold nl k (proj k t)) (map (gi (refs s ++ extra)) its) n (map rghost_of rextra) ->
   secs s2 = upd (secs s) k (sec_append (nsec s k) its n) -> labels s2 = labels s -> refs s2 = refs s ++ extra -> cur s2 = k ->
+  Forall is_abs rextra -> relocs s2 = relocs s ++ rextra -> grefs (map (gi (refs s ++ extra)) its) = map ghost_of extra ->
   J nl ns (t ++ [(k, o)]) s2.
 Proof.
-  intros nl ns t s k o its n extra s2 [A B C D E F G H] Hk HX HO HL S1 S2 S3 S4.
+  intros nl ns t s k o its n extra rextra s2 [A B C D E F G H PM NR] Hk HX HO HL S1 S2 S3 S4 S5 S6 HGR.
   assert (GS : forall its0, Forall (item_ok (refs s)) its0 -> map (gi (refs s ++ extra)) its0 = map (gi (refs s)) its0).
   { intros its0 H0. apply gi_same; [exact H0|]. intros id r Hr. exists r. split; [|reflexivity].
     rewrite nth_error_app1; [exact Hr|]. apply nth_error_Some. congruence. }
@@ -211,6 +297,27 @@ Proof.
       apply Nat.eqb_eq in EQ. rewrite <- EQ in *. rewrite lfold_snoc, HL. cbn. apply in_or_app. left. exact H2.
     + rewrite nth_error_app2 in Hr by lia. apply nth_error_In in Hr. destruct (HX r Hr) as [H1 H2]. rewrite H1. split; [exact Hk|].
       rewrite proj_snoc. cbn [fst snd]. rewrite Nat.eqb_refl, lfold_snoc, HL. cbn. apply in_or_app. right. exact H2.
+  - rewrite S3, map_app. unfold allghosts.
+    rewrite (flat_map_seq_extend (fun j => grefs (l_items (lfold nl j (proj j t)))) _ (map ghost_of extra) k (S ns) 0); [apply Permutation_app_tail; exact PM|lia| |].
+    + intros j Hj. rewrite proj_snoc. cbn [fst snd]. assert (Nat.eqb k j = false) as -> by (apply Nat.eqb_neq; congruence). now rewrite app_nil_r.
+    + rewrite proj_snoc. cbn [fst snd]. rewrite Nat.eqb_refl, lfold_snoc, HL. cbn [lemit lemitr l_items]. rewrite grefs_app, HGR. reflexivity.
+  - destruct NR as [NR1 NR2]. split; [|rewrite S6; apply Forall_app; split; [exact NR2|exact S5]].
+    rewrite S6, map_app. unfold allrels.
+    rewrite (flat_map_seq_extend (fun j => l_rels (lfold nl j (proj j t))) _ (map rghost_of rextra) k (S ns) 0); [apply Permutation_app_tail; exact NR1|lia| |].
+    + intros j Hj. rewrite proj_snoc. cbn [fst snd]. assert (Nat.eqb k j = false) as -> by (apply Nat.eqb_neq; congruence). now rewrite app_nil_r.
+    + rewrite proj_snoc. cbn [fst snd]. rewrite Nat.eqb_refl, lfold_snoc, HL. reflexivity.
+Qed.
+
+Lemma J_emit : forall nl ns t s k o its n extra s2, J nl ns t s -> (k < S ns)%nat ->
+  (forall r, In r extra -> r_sec r = k /\ In (GRef (ghost_of r)) (map (gi (refs s ++ extra)) its)) ->
+  Forall (item_ok (refs s ++ extra)) its ->
+  lstep nl k (lfold nl k (proj k t)) o = lemit (lfold nl k (proj k t)) (map (gi (refs s ++ extra)) its) n ->
+  secs s2 = upd (secs s) k (sec_append (nsec s k) its n) -> labels s2 = labels s -> refs s2 = refs s ++ extra -> cur s2 = k ->
+  pending_rel s2 = pending_rel s -> relocs s2 = relocs s -> grefs (map (gi (refs s ++ extra)) its) = map ghost_of extra ->
+  J nl ns (t ++ [(k, o)]) s2.
+Proof.
+  intros nl ns t s k o its n extra s2 HJ Hk HX HO HL S1 S2 S3 S4 S5 S6 HGR.
+  eapply (J_emitr nl ns t s k o its n extra []); try eassumption; [constructor|now rewrite app_nil_r].
 Qed.
 
 Lemma step_section_ok : forall s k, (k < length (secs s))%nat -> step s (OSection k) = (set_cur s k, EOk).
@@ -225,6 +332,7 @@ Proof.
   - destruct (negb (Nat.ltb l nl)); [left; reflexivity|]. destruct (negb (hole_ok k0 w0)); [left; reflexivity|].
     destruct (assoc l (l_binds st)); [destruct (write_offset _ _ _)|]; left; reflexivity.
   - destruct (Nat.ltb l nl); [|left; reflexivity]. destruct (assoc l (l_binds st)) eqn:E; [left; reflexivity|]. right. exists l. auto.
+  - destruct (negb (Nat.ltb l nl)); [left; reflexivity|]. destruct (negb (size_ok size)); left; reflexivity.
 Qed.
 
 Lemma assoc_lfold_bind : forall nl k os l off, assoc l (l_binds (lfold nl k os)) = Some off -> In (SBind l) os.
@@ -246,15 +354,16 @@ Lemma bound_labels_snoc : forall t x, bound_labels (t ++ [x]) = bound_labels t +
 Proof. intros. unfold bound_labels. rewrite flat_map_app. cbn. now rewrite app_nil_r. Qed.
 
 Lemma J_step : forall nl ns t s k o, J nl ns t s -> inv s -> (k < S ns)%nat -> NoDup (bound_labels (t ++ [(k, o)])) ->
+  bind_fits (lfold nl k (proj k t)) o = true ->
   J nl ns (t ++ [(k, o)]) (run s (expand1 (k, o))).
 Proof.
-  intros nl ns t s k o HJ HI Hk HN. pose proof HJ as [A B C D E F G H].
+  intros nl ns t s k o HJ HI Hk HN HFIT. pose proof HJ as [A B C D E F G H PM NR].
   unfold expand1. cbn [fst snd run]. rewrite step_section_ok by lia. cbn [fst].
   set (s1 := set_cur s k).
   assert (CS : cur_sec s1 = nsec s k) by reflexivity.
   assert (LL : forall l, (l < nl)%nat <-> nth_error (labels s) l <> None).
   { intros l. rewrite nth_error_Some. lia. }
-  destruct o as [bs|n|kd rel l pre w0 post|l]; cbn [op_of].
+  destruct o as [bs|n|kd rel l pre w0 post|l|l size addend pre post]; cbn [op_of].
   - (* raw *) cbn [step fst]. eapply (J_emit nl ns t s k (SRaw bs) [IRaw bs] (zlen bs) []); try exact HJ; try exact Hk; try reflexivity.
     + intros r [].
     + repeat constructor.
@@ -279,17 +388,18 @@ Proof.
     (* the emitted items, whatever the word *)
     assert (EMIT : forall r s2, ghost_of r = ghost_of r0 ->
                secs s2 = upd (secs s) k (sec_append (nsec s k) [IRaw pre; IRef (length (refs s)); IRaw post] (zlen pre + vsize (fmt_of_kind kd) + zlen post)) ->
-               labels s2 = labels s -> refs s2 = refs s ++ [r] -> cur s2 = k ->
+               labels s2 = labels s -> refs s2 = refs s ++ [r] -> cur s2 = k -> pending_rel s2 = pending_rel s -> relocs s2 = relocs s ->
                lstep nl k (lfold nl k (proj k t)) (SRef kd rel l pre w0 post) =
                  lemit (lfold nl k (proj k t)) [GRaw pre; GRef (ghost_of r0); GRaw post] (zlen pre + vsize (fmt_of_kind kd) + zlen post) ->
                J nl ns (t ++ [(k, SRef kd rel l pre w0 post)]) s2).
-    { intros r s2 HG S1 S2 S3 S4 HL.
+    { intros r s2 HG S1 S2 S3 S4 S5 S6 HL.
       eapply (J_emit nl ns t s k _ [IRaw pre; IRef (length (refs s)); IRaw post] _ [r]); try exact HJ; try exact Hk; try assumption.
       - intros r' [<-|[]]. assert (r_sec r = r_sec r0) by (change (g_sec (ghost_of r) = g_sec (ghost_of r0)); now rewrite HG). split; [exact H0|].
         cbn [map gi]. rewrite nth_error_app2 by lia. rewrite Nat.sub_diag. cbn. right. left. reflexivity.
       - repeat constructor. cbn. rewrite app_length. cbn. lia.
       - rewrite HL. cbn [map gi]. rewrite nth_error_app2 by lia. rewrite Nat.sub_diag. cbn. rewrite HG. reflexivity.
-      - exact S1. }
+      - exact S1.
+      - cbn [map gi]. rewrite nth_error_app2 by lia. rewrite Nat.sub_diag. reflexivity. }
     assert (G0 : ghost_of r0 = {| g_sec := k; g_site := l_len (lfold nl k (proj k t)) + zlen pre; g_rel := rel; g_kind := kd; g_label := l; g_w0 := w0 |}).
     { unfold ghost_of, r0. cbn. rewrite SITE. reflexivity. }
     destruct lb as [[ls lo]|].
@@ -316,7 +426,17 @@ Proof.
       assert (X : (k' < S ns)%nat /\ assoc l (l_binds (lfold nl k' (proj k' t))) = Some off') by (apply G; exact EL).
       destruct X as [_ X]. apply assoc_lfold_bind, proj_bind_bound in X.
       rewrite bound_labels_snoc in HN. cbn in HN. apply NoDup_remove_2 in HN. apply HN. rewrite app_nil_r. exact X.
-    + (* bind now *) cbn [fst].
+    + (* bind now: it is not refused *)
+      assert (PRE : bind_precheck l (cur s1) (s_len (cur_sec s1)) (pending s1) (refs s1) = true).
+      { unfold bind_precheck. apply forallb_forall. intros fx Hfx. change (pending s1) with (pending s) in Hfx. change (refs s1) with (refs s).
+        unfold bind_sel. change (cur s1) with k.
+        destruct (Nat.eqb (fx_label fx) l) eqn:E1; [|reflexivity]. destruct (Nat.eqb (fx_sec fx) k) eqn:E2; [|reflexivity].
+        apply Nat.eqb_eq in E1. apply Nat.eqb_eq in E2.
+        destruct (inv_fx _ _ _ _ _ HI fx Hfx) as (r & Hr & Hsec & Hsite & Hrel & Hkind & Hlab & Hw0). rewrite Hr.
+        destruct (H _ r Hr) as [_ Hin]. rewrite Hsec, E2 in Hin.
+        cbn [bind_fits] in HFIT. unfold lprecheck in HFIT. rewrite forallb_forall in HFIT. specialize (HFIT _ Hin). cbn [ghost_of g_label g_kind g_w0 g_site g_rel] in HFIT.
+        rewrite Hlab, E1, Nat.eqb_refl in HFIT. rewrite CS, D by exact Hk. cbn [lay_so lay_to]. rewrite <- Hkind, <- Hsite, <- Hrel, Hw0. exact HFIT. }
+      rewrite PRE. cbn [negb fst].
       destruct (bind_rel l (cur s1) (s_len (cur_sec s1)) (pending_rel s1) (relocs s1)) as [[prk rl] nrel] eqn:EB.
       cbn [fst].
       set (W := resolve_list (bind_sel l (cur s1) (s_len (cur_sec s1))) true (pending s1) (refs s1)).
@@ -331,13 +451,14 @@ Proof.
       { intros j Hj. rewrite proj_snoc. cbn [fst snd]. assert (Nat.eqb k j = false) as -> by (apply Nat.eqb_neq; congruence). now rewrite app_nil_r. }
       assert (Pk : lfold nl k (proj k (t ++ [(k, SBind l)])) =
                    {| l_len := l_len (lfold nl k (proj k t)); l_items := l_items (lfold nl k (proj k t));
-                      l_binds := (l, l_len (lfold nl k (proj k t))) :: l_binds (lfold nl k (proj k t)) |}).
+                      l_binds := (l, l_len (lfold nl k (proj k t))) :: l_binds (lfold nl k (proj k t)); l_rels := l_rels (lfold nl k (proj k t)) |}).
       { rewrite proj_snoc. cbn [fst snd]. rewrite Nat.eqb_refl, lfold_snoc. cbn [lstep]. rewrite LT, ASk. reflexivity. }
       match goal with |- J _ _ _ ?st => set (s2 := st) end.
       assert (Q1 : secs s2 = secs s) by reflexivity.
       assert (Q2 : labels s2 = upd (labels s) l (Some (k, s_len (nsec s k)))) by reflexivity.
       assert (Q3 : refs s2 = w_refs W) by reflexivity.
       assert (Q4 : cur s2 = k) by reflexivity.
+      assert (Q5 : pending_rel s2 = prk /\ relocs s2 = rl) by (split; reflexivity).
       assert (QN : forall j, nsec s2 j = nsec s j) by (intros; unfold nsec; now rewrite Q1).
       clearbody s2.
       constructor.
@@ -370,8 +491,47 @@ Proof.
              destruct (nth_error rs (fx_id fx)); cbn [walk_keep w_refs]; [|apply IH].
              destruct (write_offset _ _ _); cbn [walk_keep walk_done w_refs]; [|apply IH]. rewrite IH. apply upd_length. }
            assert (id < length (w_refs W))%nat by (apply nth_error_Some; congruence). lia.
+      * rewrite Q3. unfold W. rewrite resolve_list_ghost_map. change (refs s1) with (refs s).
+        unfold allghosts. rewrite (flat_map_seq_ext _ (fun j => grefs (l_items (lfold nl j (proj j t))))); [exact PM|].
+        intros j _. destruct (Nat.eq_dec j k) as [->|N]; [rewrite Pk; reflexivity|now rewrite P by exact N].
+      * destruct NR as [NR1 NR2]. destruct Q5 as [_ Q5]. rewrite Q5.
+        assert (RL : rl = mapi_from (fun rid re => if rel_hit l (pending_rel s1) rid then bump_reloc re (cur s1) (s_len (cur_sec s1)) else re) O (relocs s)).
+        { unfold bind_rel in EB. injection EB as _ <- _. reflexivity. }
+        assert (MG : forall (f : nat -> reloc -> reloc) i (rls : list reloc), (forall j re, rghost_of (f j re) = rghost_of re /\ (is_abs re -> is_abs (f j re))) ->
+                  map rghost_of (mapi_from f i rls) = map rghost_of rls /\ (Forall is_abs rls -> Forall is_abs (mapi_from f i rls))).
+        { intros f i rls Hf. revert i. induction rls as [|re rls IH]; intros i; cbn; [split; [reflexivity|constructor]|].
+          destruct (IH (S i)) as [I1 I2]. destruct (Hf i re) as [F1 F2]. split; [now rewrite F1, I1|].
+          intros HA. inversion HA; subst. constructor; auto. }
+        destruct (MG (fun rid re => if rel_hit l (pending_rel s1) rid then bump_reloc re (cur s1) (s_len (cur_sec s1)) else re) O (relocs s)) as [M1 M2].
+        { intros j re. destruct (rel_hit l (pending_rel s1) j); split; auto. }
+        rewrite RL. split; [|apply M2; exact NR2]. rewrite M1.
+        unfold allrels. rewrite (flat_map_seq_ext _ (fun j => l_rels (lfold nl j (proj j t)))); [exact NR1|].
+        intros j _. destruct (Nat.eq_dec j k) as [->|N]; [rewrite Pk; reflexivity|now rewrite P by exact N].
     + (* invalid label *) cbn [fst]. eapply J_nop; try exact HJ; try exact Hk; try reflexivity. cbn [lstep].
       assert (Nat.ltb l nl = false) as ->; [|reflexivity]. apply Nat.ltb_ge. apply nth_error_None in EL. lia.
+  - (* absolute reference: bytes + one RelToAbs relocation entry *) cbn [step]. change (labels s1) with (labels s).
+    destruct (nth_error (labels s) l) as [lb|] eqn:EL.
+    2:{ cbn [fst]. eapply J_nop; try exact HJ; try exact Hk; try reflexivity. cbn [lstep].
+        assert (Nat.ltb l nl = false) as ->; [|reflexivity]. apply Nat.ltb_ge. apply nth_error_None in EL. lia. }
+    assert (LT : Nat.ltb l nl = true). { apply Nat.ltb_lt. apply LL. congruence. }
+    destruct (negb (size_ok size)) eqn:ESZ.
+    { cbn [fst]. eapply J_nop; try exact HJ; try exact Hk; try reflexivity. cbn [lstep]. rewrite LT, ESZ. reflexivity. }
+    assert (ABS : forall re s2, rghost_of re = {| rg_sec := k; rg_off := l_len (lfold nl k (proj k t)); rg_lead := zlen pre; rg_size := size;
+                                                 rg_trail := zlen post; rg_label := l; rg_addend := addend |} -> is_abs re ->
+               secs s2 = upd (secs s) k (sec_append (nsec s k) [IRaw (pre ++ zeros size ++ post)] (zlen pre + size + zlen post)) ->
+               labels s2 = labels s -> refs s2 = refs s -> cur s2 = k -> relocs s2 = relocs s ++ [re] ->
+               J nl ns (t ++ [(k, SAbs l size addend pre post)]) s2).
+    { intros re s2 HG HA S1 S2 S3 S4 S6.
+      eapply (J_emitr nl ns t s k _ [IRaw (pre ++ zeros size ++ post)] _ [] [re]); try exact HJ; try exact Hk; try assumption.
+      - intros r [].
+      - repeat constructor.
+      - cbn [lstep]. rewrite LT, ESZ. cbn [negb map gi]. rewrite HG. reflexivity.
+      - exact S1.
+      - rewrite app_nil_r. exact S3.
+      - repeat constructor. exact HA.
+      - reflexivity. }
+    assert (OFF : s_len (cur_sec s1) = l_len (lfold nl k (proj k t))) by (rewrite CS; apply D; exact Hk).
+    destruct lb as [[ls lo]|]; cbn [fst]; eapply ABS; try reflexivity; unfold rghost_of; cbn [rl_sec rl_off rl_lead rl_size rl_trail rl_label rl_addend]; rewrite OFF; reflexivity.
 Qed.
 
 (* ------------------------------------------------------------------ the prelude and whole runs *)
@@ -406,6 +566,8 @@ Proof.
     + intros X. exfalso. apply nth_error_In in X. apply repeat_spec in X. discriminate.
     + intros [_ X]. discriminate.
   - intros [|id] r X; discriminate.
+  - unfold allghosts. cbn [proj filter map lfold fold_left lst0 l_items grefs flat_map]. induction (seq 0 (S ns)); cbn; [constructor|exact IHl].
+  - split; [|constructor]. unfold allrels. cbn [proj filter map lfold fold_left lst0 l_rels relocs set_secs set_labels init]. induction (seq 0 (S ns)); cbn; [constructor|exact IHl].
 Qed.
 
 Definition tags_ok (ns : nat) (t : list top) : Prop := Forall (fun x : top => (fst x < S ns)%nat) t.
@@ -416,14 +578,24 @@ Proof.
   intro HI. apply H2. apply in_or_app. now left.
 Qed.
 
-Lemma J_run : forall nl ns t, tags_ok ns t -> NoDup (bound_labels t) ->
+Lemma all_fit_snoc : forall nl ns t k o, (k < S ns)%nat -> all_fit nl ns (t ++ [(k, o)]) ->
+  all_fit nl ns t /\ bind_fits (lfold nl k (proj k t)) o = true.
+Proof.
+  intros nl ns t k o Hk H. split.
+  - intros j Hj. specialize (H j Hj). rewrite proj_snoc in H. cbn [fst snd] in H. destruct (Nat.eqb k j); [|now rewrite app_nil_r in H].
+    rewrite fits_from_snoc in H. apply andb_prop in H. tauto.
+  - specialize (H k Hk). rewrite proj_snoc in H. cbn [fst snd] in H. rewrite Nat.eqb_refl, fits_from_snoc in H. apply andb_prop in H. tauto.
+Qed.
+
+Lemma J_run : forall nl ns t, tags_ok ns t -> NoDup (bound_labels t) -> all_fit nl ns t ->
   J nl ns t (run init (prelude nl ns ++ expand t)) /\ inv (run init (prelude nl ns ++ expand t)).
 Proof.
-  intros nl ns t. induction t as [|x t IH] using rev_ind; intros HT HN.
+  intros nl ns t. induction t as [|x t IH] using rev_ind; intros HT HN HFT.
   - cbn [expand flat_map]. rewrite app_nil_r. split; [apply J_prelude|apply run_inv, inv_init].
   - apply Forall_app in HT. destruct HT as [HT Hx]. inversion Hx; subst.
     assert (HN' : NoDup (bound_labels t)) by (rewrite bound_labels_snoc in HN; eapply NoDup_app_l'; exact HN).
-    destruct (IH HT HN') as [IJ II]. rewrite expand_snoc, app_assoc, run_app. destruct x as [k o]. split.
+    destruct x as [k o]. destruct (all_fit_snoc nl ns t k o H1 HFT) as [HFT' HFo].
+    destruct (IH HT HN' HFT') as [IJ II]. rewrite expand_snoc, app_assoc, run_app. split.
     + apply J_step; assumption.
     + apply run_inv. exact II.
 Qed.
@@ -439,6 +611,17 @@ Definition wfin (lbls : list (option (nat * Z))) (offs : list Z) (g : ghost) : Z
       match write_offset (fmt_of_kind (g_kind g)) (g_w0 g) (fdisp offs ls lo g) with Some w => w | None => g_w0 g end
   | _ => g_w0 g
   end.
+
+Definition wres (lbls : list (option (nat * Z))) (offs : list Z) (g : ghost) : option Z :=
+  match nth_error lbls (g_label g) with
+  | Some (Some (ls, lo)) => write_offset (fmt_of_kind (g_kind g)) (g_w0 g) (fdisp offs ls lo g)
+  | _ => None
+  end.
+Definition unresolvable (lbls : list (option (nat * Z))) (offs : list Z) (g : ghost) : bool :=
+  match wres lbls offs g with Some _ => false | None => true end.
+
+Lemma wfin_wres : forall lbls offs g, wfin lbls offs g = match wres lbls offs g with Some w => w | None => g_w0 g end.
+Proof. intros. unfold wfin, wres. destruct (nth_error lbls (g_label g)) as [[[ls lo]|]|]; reflexivity. Qed.
 
 Fixpoint gimage (lbls : list (option (nat * Z))) (offs : list Z) (its : list gitem) : list Z :=
   match its with
@@ -504,21 +687,62 @@ Proof.
   - induction t as [|[k o] t IH]; [reflexivity|]. cbn. destruct o; cbn; exact IH.
 Qed.
 
+Lemma perm_filter_length : forall {A} (f : A -> bool) l l', Permutation l l' -> length (filter f l) = length (filter f l').
+Proof.
+  intros A f l l' H. induction H; cbn; try reflexivity.
+  - destruct (f x); cbn; now rewrite IHPermutation.
+  - destruct (f x), (f y); reflexivity.
+  - congruence.
+Qed.
+
+Lemma count_ids : forall (l : list nat) n (P : nat -> bool), NoDup l -> (forall x, In x l <-> (x < n)%nat /\ P x = true) ->
+  length l = length (filter P (seq 0 n)).
+Proof.
+  intros l n P ND H. apply Permutation_length. apply NoDup_Permutation; [exact ND|apply NoDup_filter, seq_NoDup|].
+  intros x. rewrite H, filter_In, in_seq. split; intros [A B]; split; auto; lia.
+Qed.
+
+Lemma filter_seq_list : forall {A} (q : A -> bool) (rs : list A),
+  length (filter (fun i => match nth_error rs i with Some r => q r | None => false end) (seq 0 (length rs))) = length (filter q rs).
+Proof.
+  intros A q rs. induction rs as [|r rs IH] using rev_ind; [reflexivity|].
+  rewrite app_length. cbn [length]. rewrite Nat.add_1_r, seq_S, !filter_app, !app_length. cbn [Nat.add filter].
+  rewrite nth_error_app2 by lia. rewrite Nat.sub_diag. cbn [nth_error]. f_equal.
+  - rewrite <- IH. f_equal. apply filter_ext_in. intros i Hi. apply in_seq in Hi. rewrite nth_error_app1 by lia. reflexivity.
+  - destruct (q r); reflexivity.
+Qed.
+
+Lemma filter_map_length : forall {A B} (f : A -> B) (q : B -> bool) l, length (filter (fun x => q (f x)) l) = length (filter q (map f l)).
+Proof. intros. induction l; cbn; [reflexivity|]. destruct (q (f a)); cbn; now rewrite IHl. Qed.
+
+Definition unbound (lbls : list (option (nat * Z))) (l : nat) : bool :=
+  match nth_error lbls l with Some (Some _) => false | _ => true end.
+
+(* the final relocation entry of an absolute reference: payload and target section follow from the final label table *)
+Definition rel_final (lbls : list (option (nat * Z))) (rg : rghost) : reloc :=
+  {| rl_type := RelToAbs; rl_sec := rg_sec rg; rl_off := rg_off rg; rl_lead := rg_lead rg; rl_size := rg_size rg; rl_trail := rg_trail rg;
+     rl_payload := match nth_error lbls (rg_label rg) with Some (Some (_, lo)) => wrap 64 (rg_addend rg + lo) | _ => wrap 64 (rg_addend rg) end;
+     rl_target := match nth_error lbls (rg_label rg) with Some (Some (ls, _)) => Some ls | _ => None end;
+     rl_label := rg_label rg; rl_addend := rg_addend rg |}.
+
 Record final (nl ns : nat) (t : list top) (offs : list Z) (s : state) : Prop := {
   f_nl : length (labels s) = nl;
   f_bound : forall l k off, nth_error (labels s) l = Some (Some (k, off)) <-> ((k < S ns)%nat /\ assoc l (l_binds (lfold nl k (proj k t))) = Some off);
   f_len : forall k, (k < S ns)%nat -> s_len (nsec s k) = l_len (lfold nl k (proj k t));
-  f_img : forall k, (k < S ns)%nat -> sec_image (refs s) (s_items (nsec s k)) = gimage (labels s) offs (l_items (lfold nl k (proj k t)))
+  f_img : forall k, (k < S ns)%nat -> sec_image (refs s) (s_items (nsec s k)) = gimage (labels s) offs (l_items (lfold nl k (proj k t)));
+  f_unres : unresolved s = Z.of_nat (length (filter (unresolvable (labels s) offs) (allghosts nl ns t)))     (* CodeHolder::unresolved_fixup_count() *)
+                         + Z.of_nat (length (filter (fun rg => unbound (labels s) (rg_label rg)) (allrels nl ns t)));
+  f_rel : Permutation (relocs s) (map (rel_final (labels s)) (allrels nl ns t))      (* the relocation entries, up to creation order *)
 }.
 
 (* the assembled result as a function of the per-section operation sequences *)
-Theorem final_char : forall nl ns t offs, tags_ok ns t -> NoDup (bound_labels t) -> nowrap nl ns t offs ->
+Theorem final_char : forall nl ns t offs, tags_ok ns t -> NoDup (bound_labels t) -> all_fit nl ns t -> nowrap nl ns t offs ->
   final nl ns t offs (run init ((prelude nl ns ++ expand t) ++ [OResolve offs])).
 Proof.
-  intros nl ns t offs HT HN HW.
-  destruct (J_run nl ns t HT HN) as [HJ HI]. pose proof (no_resolve_ops nl ns t) as HNR.
+  intros nl ns t offs HT HN HFT HW.
+  destruct (J_run nl ns t HT HN HFT) as [HJ HI]. pose proof (no_resolve_ops nl ns t) as HNR.
   set (ops := prelude nl ns ++ expand t) in *. set (sF := run init ops) in *.
-  pose proof HJ as [A B C D E F G H].
+  pose proof HJ as [A B C D E F G H PM NR].
   assert (RUN : run init (ops ++ [OResolve offs]) = fst (step sF (OResolve offs))) by (rewrite run_app; reflexivity).
   set (W := resolve_list (resolve_sel (labels sF) offs) false (pending sF) (refs sF)).
   assert (S1 : fst (step sF (OResolve offs)) = set_fix sF (w_refs W) (w_kept W) (unresolved sF - w_n W)) by reflexivity.
@@ -527,15 +751,17 @@ Proof.
   assert (GH : forall id r, nth_error (refs sF) id = Some r -> exists r', nth_error (w_refs W) id = Some r' /\ ghost_of r' = ghost_of r)
     by (intros; apply resolve_list_ghost; assumption).
   (* the word of every reference *)
-  assert (WORD : forall id r, nth_error (w_refs W) id = Some r -> r_word r = wfin (labels sF) offs (ghost_of r)).
+  assert (STATUS : forall id r, nth_error (w_refs W) id = Some r ->
+            (In id (ids (w_kept W)) -> wres (labels sF) offs (ghost_of r) = None /\ r_word r = r_w0 r) /\
+            (~ In id (ids (w_kept W)) -> wres (labels sF) offs (ghost_of r) = Some (r_word r))).
   { intros id r Hr.
     assert (I1 : inv (fst (step sF (OResolve offs)))) by (apply step_inv; exact HI).
-    destruct (in_dec Nat.eq_dec id (ids (w_kept W))) as [HP|HP].
+    split; intros HP.
     - (* still pending *)
       apply in_map_iff in HP. destruct HP as (fx & Hid & Hin).
       destruct (wp_fx _ _ _ _ _ WP fx Hin) as (r1 & Hr1 & Hsec & Hsite & Hrel & Hkind & Hlab & Hw0).
       rewrite Hid, Hr in Hr1. injection Hr1 as <-.
-      rewrite Hw0. unfold wfin. cbn [ghost_of g_label g_kind g_w0].
+      split; [|exact Hw0]. unfold wres. cbn [ghost_of g_label g_kind g_w0].
       destruct (kept_reason _ _ _ _ fx (inv_nodup _ _ _ _ _ HI) (inv_fx _ _ _ _ _ HI) Hin) as [X|[X|(lay & lo & r0 & X1 & X2 & X3)]].
       + unfold resolve_sel in X. rewrite <- Hlab in X.
         destruct (nth_error (labels sF) (r_label r)) as [[[ls lo]|]|]; try reflexivity.
@@ -557,22 +783,74 @@ Proof.
         assert (EQW : r_w0 r = r_w0 r0) by (change (g_w0 (ghost_of r) = g_w0 (ghost_of r0)); now rewrite HG).
         assert (EQ : fdisp offs ls lo' (ghost_of r) = disp (nth (fx_sec fx) offs 0) (nth ls offs 0) lo' (fx_off fx) (fx_rel fx)).
         { unfold fdisp, disp. cbn [ghost_of g_sec g_site g_rel]. rewrite Hsec, Hsite, Hrel. reflexivity. }
-        rewrite EQ, Hkind, EQW. rewrite <- Hw00. cbn [lay_so lay_to] in X3. rewrite X3. reflexivity.
+        rewrite EQ, Hkind, EQW. rewrite <- Hw00. cbn [lay_so lay_to] in X3. exact X3.
     - (* resolved *)
       assert (Hr2 : nth_error (refs (run init (ops ++ [OResolve offs]))) id = Some r) by (rewrite RUN, S1; exact Hr).
       assert (HP2 : ~ In id (ids (pending (run init (ops ++ [OResolve offs]))))) by (rewrite RUN, S1; exact HP).
       destruct (resolved_final_enc ops offs id r HNR Hr2 HP2) as (ls & lo & m & Hl & He & Hw & _).
       rewrite RUN, S1 in Hl. cbn [labels set_fix] in Hl.
-      unfold wfin. cbn [ghost_of g_label g_kind g_w0]. rewrite Hl.
+      unfold wres. cbn [ghost_of g_label g_kind g_w0]. rewrite Hl.
       change (fdisp offs ls lo (ghost_of r)) with (final_disp offs ls lo r).
-      unfold write_offset. rewrite He. exact Hw. }
+      unfold write_offset. rewrite He. f_equal. symmetry. exact Hw. }
+  assert (WORD : forall id r, nth_error (w_refs W) id = Some r -> r_word r = wfin (labels sF) offs (ghost_of r)).
+  { intros id r Hr. destruct (STATUS id r Hr) as [S1' S2']. rewrite wfin_wres.
+    destruct (in_dec Nat.eq_dec id (ids (w_kept W))) as [HP|HP].
+    - destruct (S1' HP) as [X Y]. rewrite X. exact Y.
+    - rewrite (S2' HP). reflexivity. }
   rewrite RUN, S1.
   assert (QN : forall j, nsec (set_fix sF (w_refs W) (w_kept W) (unresolved sF - w_n W)) j = nsec sF j) by reflexivity.
-  constructor; cbn [labels set_fix refs]; try assumption.
-  intros k Hk. rewrite QN.
+  constructor; cbn [labels set_fix refs unresolved]; try assumption.
+  - intros k Hk. rewrite QN.
     destruct (gi_same (refs sF) (w_refs W) (s_items (nsec sF k)) (F k Hk) GH) as [Q1 Q2].
     rewrite (sec_image_gimage (labels sF) offs (w_refs W)); [|eapply item_ok_mono; [exact Q2|apply F; exact Hk]|exact WORD].
     rewrite Q1, E by exact Hk. reflexivity.
+  - (* the unresolved count = the number of references that cannot be resolved *)
+    assert (I1 : inv (fst (step sF (OResolve offs)))) by (apply step_inv; exact HI).
+    pose proof (inv_count _ _ _ _ _ I1) as HC. rewrite S1 in HC. cbn [unresolved pending pending_rel set_fix] in HC.
+    destruct NR as [NR1 NR2]. rewrite HC. unfold zlen. f_equal; f_equal.
+    2:{ (* relocation-linked fixups = absolute references whose label is still unbound *)
+      pose proof (run_absinv ops init absinv_init) as AI. fold sF in AI. destruct AI as [AN AL AA].
+      rewrite <- (map_length snd (pending_rel sF)).
+      rewrite (count_ids (map snd (pending_rel sF)) (length (relocs sF))
+                 (fun i => match nth_error (relocs sF) i with Some re => unbound (labels sF) (rl_label re) | None => false end)).
+      - rewrite (filter_seq_list (fun re => unbound (labels sF) (rl_label re)) (relocs sF)).
+        rewrite (filter_map_length rghost_of (fun rg => unbound (labels sF) (rg_label rg))). apply perm_filter_length. exact NR1.
+      - exact AN.
+      - intros rid. split.
+        + intros HP. apply in_map_iff in HP. destruct HP as ([l0 rid0] & Hs & Hp). cbn in Hs. subst rid0.
+          destruct (AL _ Hp) as (re & Hre & _ & Hlab & _ & _ & Hun). cbn [fst snd] in *.
+          split; [apply nth_error_Some; congruence|]. rewrite Hre. unfold unbound. rewrite Hlab, Hun. reflexivity.
+        + intros [Hlt HPt]. destruct (nth_error (relocs sF) rid) as [re|] eqn:Er; [|discriminate].
+          assert (HA : is_abs re) by (eapply Forall_forall; [exact NR2|eapply nth_error_In; exact Er]).
+          destruct (AA rid re Er HA) as [X|(ls & lo & X & _)].
+          * apply in_map_iff. exists (rl_label re, rid). split; [reflexivity|exact X].
+          * unfold unbound in HPt. rewrite X in HPt. discriminate. }
+    rewrite <- (map_length fx_id (w_kept W)). fold (ids (w_kept W)).
+    rewrite (count_ids (ids (w_kept W)) (length (w_refs W))
+               (fun i => match nth_error (w_refs W) i with Some r => unresolvable (labels sF) offs (ghost_of r) | None => false end)).
+    + rewrite (filter_seq_list (fun r => unresolvable (labels sF) offs (ghost_of r)) (w_refs W)).
+      rewrite (filter_map_length ghost_of (unresolvable (labels sF) offs)).
+      apply perm_filter_length. unfold W. rewrite resolve_list_ghost_map. exact PM.
+    + apply (wp_nodup _ _ _ _ _ WP).
+    + intros id. split.
+      * intros HP. pose proof HP as HP'. apply in_map_iff in HP'. destruct HP' as (fx & Hid & Hin).
+        destruct (wp_fx _ _ _ _ _ WP fx Hin) as (r1 & Hr1 & _). rewrite Hid in Hr1. split; [apply nth_error_Some; congruence|].
+        rewrite Hr1. destruct (STATUS id r1 Hr1) as [S1' _]. destruct (S1' HP) as [X _]. unfold unresolvable. now rewrite X.
+      * intros [Hlt HPt]. destruct (nth_error (w_refs W) id) as [r|] eqn:Er; [|discriminate].
+        destruct (in_dec Nat.eq_dec id (ids (w_kept W))) as [HP|HP]; [exact HP|].
+        destruct (STATUS id r Er) as [_ S2']. unfold unresolvable in HPt. rewrite (S2' HP) in HPt. discriminate.
+  - (* relocation entries *)
+    destruct NR as [NR1 NR2]. pose proof (run_absinv ops init absinv_init) as AI. fold sF in AI. destruct AI as [AN AL AA].
+    assert (EQ : map (rel_final (labels sF)) (map rghost_of (relocs sF)) = relocs sF).
+    { rewrite map_map. rewrite <- (map_id (relocs sF)) at 2. apply map_ext_in. intros re Hin.
+      destruct (In_nth_error _ _ Hin) as (rid & Er).
+      assert (HA : is_abs re) by (eapply Forall_forall; [exact NR2|exact Hin]). unfold is_abs in HA.
+      destruct (AA rid re Er HA) as [X|(ls & lo & X & Y & Z0)].
+      - destruct (AL _ X) as (re' & Hre' & _ & _ & Hpay & Htar & Hun). cbn [fst snd] in *. rewrite Er in Hre'. injection Hre' as <-.
+        destruct re; cbn in *. unfold rel_final, rghost_of. cbn. rewrite Hun, HA, Hpay, Htar. reflexivity.
+      - destruct re; cbn in *. unfold rel_final, rghost_of. cbn. rewrite X, HA, Y, Z0. reflexivity. }
+    change (Permutation (relocs sF) (map (rel_final (labels sF)) (allrels nl ns t))).
+    rewrite <- EQ. apply Permutation_map. exact NR1.
 Qed.
 
 (* ------------------------------------------------------------------ ORDER IRRELEVANCE *)
@@ -585,7 +863,7 @@ Qed.
 Lemma final_labels_eq : forall nl ns t1 t2 offs s1 s2, (forall k, proj k t1 = proj k t2) ->
   final nl ns t1 offs s1 -> final nl ns t2 offs s2 -> labels s1 = labels s2.
 Proof.
-  intros nl ns t1 t2 offs s1 s2 HP [A1 B1 _ _] [A2 B2 _ _]. apply list_eq_nth_error. intros l.
+  intros nl ns t1 t2 offs s1 s2 HP [A1 B1 _ _ _ _] [A2 B2 _ _ _ _]. apply list_eq_nth_error. intros l.
   destruct (nth_error (labels s1) l) as [v1|] eqn:E1; destruct (nth_error (labels s2) l) as [v2|] eqn:E2.
   - destruct v1 as [[k off]|]; destruct v2 as [[k2 off2]|]; try reflexivity.
     + apply B1 in E1. rewrite HP in E1. apply B2 in E1. congruence.
@@ -600,26 +878,31 @@ Qed.
    the same section sizes and, after layout at ANY section offsets and cross-section resolution, the same bytes in every section. *)
 Theorem order_irrelevant : forall nl ns t1 t2 offs,
   (forall k, proj k t1 = proj k t2) ->
-  tags_ok ns t1 -> tags_ok ns t2 -> NoDup (bound_labels t1) -> NoDup (bound_labels t2) -> nowrap nl ns t1 offs ->
+  tags_ok ns t1 -> tags_ok ns t2 -> NoDup (bound_labels t1) -> NoDup (bound_labels t2) -> all_fit nl ns t1 -> nowrap nl ns t1 offs ->
   let s1 := run init ((prelude nl ns ++ expand t1) ++ [OResolve offs]) in
   let s2 := run init ((prelude nl ns ++ expand t2) ++ [OResolve offs]) in
-  labels s1 = labels s2 /\
+  labels s1 = labels s2 /\ unresolved s1 = unresolved s2 /\ Permutation (relocs s1) (relocs s2) /\
   forall k, (k < S ns)%nat ->
     s_len (nsec s1 k) = s_len (nsec s2 k) /\
     sec_image (refs s1) (s_items (nsec s1 k)) = sec_image (refs s2) (s_items (nsec s2 k)).
 Proof.
-  intros nl ns t1 t2 offs HP T1 T2 N1 N2 HW s1 s2.
+  intros nl ns t1 t2 offs HP T1 T2 N1 N2 HFT HW s1 s2.
   assert (HW2 : nowrap nl ns t2 offs) by (intros k Hk; rewrite <- HP; apply HW; exact Hk).
-  pose proof (final_char nl ns t1 offs T1 N1 HW) as F1. pose proof (final_char nl ns t2 offs T2 N2 HW2) as F2.
+  assert (HFT2 : all_fit nl ns t2) by (intros k Hk; rewrite <- HP; apply HFT; exact Hk).
+  pose proof (final_char nl ns t1 offs T1 N1 HFT HW) as F1. pose proof (final_char nl ns t2 offs T2 N2 HFT2 HW2) as F2.
   fold s1 in F1. fold s2 in F2.
   pose proof (final_labels_eq nl ns t1 t2 offs s1 s2 HP F1 F2) as HL. split; [exact HL|].
-  intros k Hk. destruct F1 as [_ _ L1 I1]. destruct F2 as [_ _ L2 I2]. split.
+  destruct F1 as [_ _ L1 I1 U1 R1]. destruct F2 as [_ _ L2 I2 U2 R2].
+  assert (EG : allghosts nl ns t1 = allghosts nl ns t2) by (unfold allghosts; apply flat_map_seq_ext; intros j _; now rewrite HP).
+  assert (ER : allrels nl ns t1 = allrels nl ns t2) by (unfold allrels; apply flat_map_seq_ext; intros j _; now rewrite HP).
+  split. { rewrite U1, U2, HL, EG, ER. reflexivity. }
+  split. { rewrite R1, R2, HL, ER. reflexivity. }
+  intros k Hk. split.
   - rewrite L1, L2 by exact Hk. now rewrite HP.
   - rewrite I1, I2 by exact Hk. now rewrite HP, HL.
 Qed.
 
 (* ------------------------------------------------------------------ "bound once" is itself order independent *)
-From Coq Require Import Permutation.
 
 Definition block (k : nat) (t : list top) : list top := filter (fun x : top => Nat.eqb (fst x) k) t.
 
@@ -671,13 +954,40 @@ Qed.
 
 (* order irrelevance with the hypotheses stated once *)
 Corollary order_irrelevant' : forall nl ns t1 t2 offs,
-  (forall k, proj k t1 = proj k t2) -> tags_ok ns t1 -> tags_ok ns t2 -> NoDup (bound_labels t1) -> nowrap nl ns t1 offs ->
+  (forall k, proj k t1 = proj k t2) -> tags_ok ns t1 -> tags_ok ns t2 -> NoDup (bound_labels t1) -> all_fit nl ns t1 -> nowrap nl ns t1 offs ->
   let s1 := run init ((prelude nl ns ++ expand t1) ++ [OResolve offs]) in
   let s2 := run init ((prelude nl ns ++ expand t2) ++ [OResolve offs]) in
-  labels s1 = labels s2 /\
+  labels s1 = labels s2 /\ unresolved s1 = unresolved s2 /\ Permutation (relocs s1) (relocs s2) /\
   forall k, (k < S ns)%nat ->
     s_len (nsec s1 k) = s_len (nsec s2 k) /\
     sec_image (refs s1) (s_items (nsec s1 k)) = sec_image (refs s2) (s_items (nsec s2 k)).
 Proof.
-  intros nl ns t1 t2 offs HP T1 T2 N1 HW. apply order_irrelevant; try assumption. eapply bound_once_transfers; eassumption.
+  intros nl ns t1 t2 offs HP T1 T2 N1 HFT HW. apply order_irrelevant; try assumption. eapply bound_once_transfers; eassumption.
+Qed.
+
+(* ------------------------------------------------------------------ the layout + resolution step itself reports no error (whatever the order) *)
+Lemma walk_err_serr : forall sel fxs rs, w_err (resolve_list sel false fxs rs) = true -> exists fx, In fx fxs /\ sel fx = SErr.
+Proof.
+  induction fxs as [|a t IH]; intros rs H; cbn [resolve_list] in H; [discriminate|].
+  destruct (sel a) eqn:ES; cbn [walk_keep w_err] in H.
+  - cbn in H. destruct (IH _ H) as (fx & A & B). exists fx. split; [now right|exact B].
+  - exists a. split; [now left|exact ES].
+  - destruct (nth_error rs (fx_id a)); cbn [walk_keep w_err] in H; [|cbn in H; destruct (IH _ H) as (fx & A & B); exists fx; split; [now right|exact B]].
+    destruct (write_offset _ _ _); cbn [walk_keep walk_done w_err] in H; [|cbn in H]; destruct (IH _ H) as (fx & A & B); exists fx; (split; [now right|exact B]).
+Qed.
+
+Theorem resolve_ok : forall nl ns t offs, tags_ok ns t -> NoDup (bound_labels t) -> all_fit nl ns t -> nowrap nl ns t offs ->
+  snd (step (run init (prelude nl ns ++ expand t)) (OResolve offs)) = EOk.
+Proof.
+  intros nl ns t offs HT HN HFT HW. destruct (J_run nl ns t HT HN HFT) as [HJ HI].
+  set (sF := run init (prelude nl ns ++ expand t)) in *. pose proof HJ as [A B C D E F G H PM NR].
+  cbn [step snd]. destruct (w_err (resolve_list (resolve_sel (labels sF) offs) false (pending sF) (refs sF))) eqn:EW; [|reflexivity].
+  exfalso. destruct (walk_err_serr _ _ _ EW) as (fx & Hin & X).
+  destruct (inv_fx _ _ _ _ _ HI fx Hin) as (r & Hr & Hsec & Hsite & _).
+  unfold resolve_sel in X.
+  destruct (nth_error (labels sF) (fx_label fx)) as [[[ls lo]|]|] eqn:EL; try discriminate.
+  destruct ((2 ^ 64 <=? nth ls offs 0 + lo) || (2 ^ 64 <=? nth (fx_sec fx) offs 0 + fx_off fx)) eqn:EO; [|discriminate].
+  apply G in EL. destruct EL as [Hls EA]. destruct (HW ls Hls) as [_ W2]. specialize (W2 _ _ EA).
+  destruct (H _ r Hr) as [Hs Hg]. destruct (HW (r_sec r) Hs) as [W1 _]. specialize (W1 _ Hg). cbn in W1. rewrite Hsec, Hsite in W1.
+  apply orb_true_iff in EO. destruct EO as [EO|EO]; apply Z.leb_le in EO; lia.
 Qed.
